@@ -65,8 +65,11 @@ def mutations(rng, doc, per_path: int = 3, max_total: int = 400):
         old = gen.get_path(doc, p)
         name = ".".join("*" if isinstance(x, int) or (len(x) == 64) else x for x in p)
         out.append((gen.del_path(doc, p), "delete:" + name))
+        if old is not None:
+            # null is how other tooling spells "not set": tried at every path, not sampled
+            out.append((gen.set_path(doc, p, None), "replace:" + name + ":NoneType"))
         for new in rng.sample(KINDS, per_path):
-            if not proto.deep_equal(old, new):
+            if new is not None and not proto.deep_equal(old, new):
                 out.append((gen.set_path(doc, p, new), "replace:" + name + ":" + type(new).__name__))
         if isinstance(old, str) and len(old) >= 19 and old[4:5] == "-":
             for t in rng.sample(TIMESTAMPS_BAD, 4) + rng.sample(TIMESTAMPS_GOOD, 2):
